@@ -23,14 +23,14 @@ var _ time.Time // lemmas below name package time
 //@   clock
 //@   requires p != nil && p.keys != nil
 //@   requires all(q, inmap(p.keys, q) ==> keyOK(p, q))
-//@   panics when p.currentID == 9223372036854775807
+//@   maypanic "ID overflow"
 //@   modifies p.currentID, p.generatedAt, p.keys
 //@   allocates
 //@   loop 0 invariant p.currentID == before(p.currentID) && refof(p.keys) == before(refof(p.keys))
 //@   loop 0 invariant all(q, inmap(p.keys, q) ==> before(inmap(p.keys, q)) && same(p.keys[q], before(p.keys[q])))
 //@   loop 0 invariant all(q, before(inmap(p.keys, q)) && !inmap(p.keys, q) ==> !validAt(before(p.keys[q]), tNow))
 //@   loop 0 invariant all(q, visited(q) && inmap(p.keys, q) ==> validAt(p.keys[q], tNow))
-//@   ensures freshid: p.currentID == old(p.currentID)+1
+//@   ensures freshid: old(p.currentID) < 9223372036854775807 && p.currentID == old(p.currentID)+1
 //@   ensures ok: providerOK(p)
 //@   ensures now: p.generatedAt == lastnow()
 //@   ensures retire: all(q, q != p.currentID ==> (inmap(p.keys, q) == (old(inmap(p.keys, q)) && validAt(old(p.keys[q]), lastnow()))))
@@ -43,19 +43,19 @@ var _ time.Time // lemmas below name package time
 
 //@ func (*Provider).Get
 //@   clock
-//@   requires providerOK(p)
+//@   requires p != nil
+//@   lockinv providerOK(p)
 //@   modifies p.mu
-//@   ensures ok: providerOK(p)
 //@   ensures found: result1 ==> result0.ID == id && old(inmap(p.keys, id)) && same(result0, old(p.keys[id])) && validAt(result0, lastnow())
 //@   ensures absent: !result1 ==> !old(inmap(p.keys, id)) || !validAt(old(p.keys[id]), lastnow())
 //@   ensures frame: p.currentID == old(p.currentID) && p.generatedAt == old(p.generatedAt)
 
 //@ func (*Provider).Current
 //@   clock
-//@   requires providerOK(p) && p.currentID < 9223372036854775807
+//@   requires p != nil
+//@   lockinv providerOK(p)
 //@   modifies p.mu, p.currentID, p.generatedAt, p.keys
 //@   allocates
-//@   ensures ok: providerOK(p)
 //@   ensures current: same(result, p.keys[p.currentID]) && result.ID == p.currentID
 //@   ensures valid: validAt(result, lastnow())
 //@   ensures recent: !p.generatedAt.Add(86400000000000).Before(lastnow())
